@@ -338,6 +338,33 @@ def run(ctx) -> None:
                     ctx.violation(f"reader-between-steps:{api}", v,
                                   {"case": c01._case_json(case), "deviations": [("between", rname, r, wnames)], "schedule": res.schedule})
                 bad_all.extend(bad)
+    # two writers on separate handles on a clock that does not advance (every timestamp-derived name and stamp collides unless
+    # something else keeps them apart), one reader reading between their steps
+    two = [{"kind": "append", "rows": [{"x": 100}]}, {"kind": "multi_append", "batches": [[{"x": 200}], [{"x": 201}]]}]
+    for ai, api in enumerate(APIS):
+        if quick and ai % 2 == 0:
+            continue
+        for clock_kind in ("frozen", "coarse"):
+            ops = two + [{"kind": "read", "apis": [api] * 8}]
+            case = {"ops": ops, "clock": clock_kind, "topology": "separate", "yield_filter": reader_filter, "track_states": True}
+            fruns = list(c01.explore(ctx, case, 2, 10 if quick else 120))
+            # writer 0 commits entirely while writer 1 is between any two of its steps, the reader reading in between
+            probe = P.run_case(ctx.scratch, c01._fix_case(case), between_steps_chooser("A1", 10**6, ["A0", "A2"]), tag="c02z")
+            n1 = sum(1 for a in probe.schedule if a == "A1")
+            for r in (range(1, n1 + 1) if not quick else sorted(ctx.rng.sample(range(1, n1 + 1), min(8, n1)))):
+                fruns.append(([("between", "A1", r, ["A0", "A2"])], P.run_case(ctx.scratch, c01._fix_case(case), between_steps_chooser("A1", r, ["A0", "A2"]), tag="c02z")))
+            # ... and: writer 0 has committed, writer 1 is stopped after each of its steps, the reader reads THEN
+            for r in (range(1, n1 + 1) if not quick else sorted(ctx.rng.sample(range(1, n1 + 1), min(10, n1)))):
+                script = [("A0", "end"), ("A1", f"step:{r}"), ("A2", "end"), ("A1", "end")]
+                fruns.append(([("script", script)], P.run_case(ctx.scratch, c01._fix_case(case), c01.script_chooser(script), tag="c02z")))
+            for dev, res in fruns:
+                total += 1
+                ctx.count(1, ("frozen", api, clock_kind, tuple(res.schedule)))
+                viol, bad = analyse(case, res, [2])
+                for v in viol:
+                    ctx.violation(f"reader-two-writers-{clock_kind}:{api}", v,
+                                  {"case": c01._case_json(case), "deviations": list(dev), "schedule": res.schedule})
+                bad_all.extend(bad)
     # object store with conditional writes: the response to the pointer PUT is LOST (applied, then a timeout / 5xx on the
     # way back) or the request fails before it is applied; the reader reads after every storage operation of the writer
     for ai, api in enumerate(APIS):
@@ -422,7 +449,9 @@ def replay(ctx, payload) -> int:
         return 2
     case["yield_filter"] = reader_filter
     dev = c.get("deviations", [])
-    if dev and dev[0][0] == "alternate":
+    if dev and dev[0][0] == "script":
+        res = P.run_case(ctx.scratch, c01._fix_case(case), c01.script_chooser([tuple(x) for x in dev[0][1]]), tag="replay")
+    elif dev and dev[0][0] == "alternate":
         res = P.run_case(ctx.scratch, c01._fix_case(case), alternate_chooser(dev[0][1], dev[0][2]), tag="replay")
     elif dev and dev[0][0] == "between":
         res = P.run_case(ctx.scratch, c01._fix_case(case), between_steps_chooser(dev[0][1], dev[0][2], dev[0][3]), tag="replay")
